@@ -709,6 +709,7 @@ func RecoverWALData() {
 	for _, fileData := range walFilesData {
 		mBlock := initMetricsBlock(fileData.mId, fileData.segID, fileData.blockNo)
 		isWalFileEmpty := true
+		replayedFiles := make([]string, 0, len(fileData.walFiles))
 		for _, walFileName := range fileData.walFiles {
 			filePath := filepath.Join(baseDir, walFileName)
 			walIterator, err := wal.NewWALReader(filePath)
@@ -716,6 +717,7 @@ func RecoverWALData() {
 				log.Warnf("RecoverWALData :Failed to create WAL reader for file %s: %v", walFileName, err)
 				continue
 			}
+			replayedFiles = append(replayedFiles, walFileName)
 			for {
 				walDataPoint, err := walIterator.Next()
 				if err != nil {
@@ -733,10 +735,6 @@ func RecoverWALData() {
 				isWalFileEmpty = false
 			}
 			_ = walIterator.Close()
-			err = deleteWalFile(baseDir, walFileName)
-			if err != nil {
-				log.Warnf("RecoverWALData : Failed to delete wal file %s: %v", walFileName, err)
-			}
 		}
 
 		if !isWalFileEmpty {
@@ -745,9 +743,19 @@ func RecoverWALData() {
 			if err != nil {
 				log.Warnf("RecoverWALData :Failed to flush block for shardID=%s, segID=%d, blockNo=%d: %v",
 					fileData.mId, fileData.segID, fileData.blockNo, err)
+				// keep the WAL files: the next restart replays them again
+				continue
 			}
 		}
 
+		// the WAL files are deleted only after the block rebuilt from them is on disk:
+		// a crash during recovery must not lose what they hold
+		for _, walFileName := range replayedFiles {
+			err = deleteWalFile(baseDir, walFileName)
+			if err != nil {
+				log.Warnf("RecoverWALData : Failed to delete wal file %s: %v", walFileName, err)
+			}
+		}
 	}
 }
 
@@ -2296,6 +2304,7 @@ func RecoverMNameWALData() {
 	for _, fileData := range walFilesData {
 		ms := initSegment(fileData.segID, strconv.FormatUint(fileData.mId, 10))
 		isWalFileEmpty := true
+		replayedFiles := make([]string, 0, len(fileData.walFiles))
 		for _, walFileName := range fileData.walFiles {
 
 			filePath := filepath.Join(mNameWalDir, walFileName)
@@ -2304,6 +2313,7 @@ func RecoverMNameWALData() {
 				log.Warnf("RecoverMNameWALData :Failed to create WAL reader for file %s: %v", walFileName, err)
 				continue
 			}
+			replayedFiles = append(replayedFiles, walFileName)
 			for {
 				mName, err := walIterator.Next()
 				if err != nil {
@@ -2320,20 +2330,29 @@ func RecoverMNameWALData() {
 				isWalFileEmpty = false
 			}
 			_ = walIterator.Close()
+		}
+
+		if !isWalFileEmpty {
+			// the segment directory exists only if a block of this segment was flushed before
+			err := os.MkdirAll(filepath.Dir(ms.metricsKeyBase), 0764)
+			if err == nil {
+				err = ms.FlushMetricNames()
+			}
+			if err != nil {
+				log.Warnf("RecoverMNameWALData :Failed to flush Metrics Name for shardID=%d, segID=%d,: %v",
+					fileData.mId, fileData.segID, err)
+				// keep the WAL files: the next restart replays them again
+				continue
+			}
+		}
+
+		// delete the WAL files only after the names they hold are on disk
+		for _, walFileName := range replayedFiles {
 			err = deleteWalFile(mNameWalDir, walFileName)
 			if err != nil {
 				log.Warnf("RecoverMNameWALData : Failed to delete wal file %s: %v", walFileName, err)
 			}
 		}
-
-		if !isWalFileEmpty {
-			err := ms.FlushMetricNames()
-			if err != nil {
-				log.Warnf("RecoverMNameWALData :Failed to flush Metrics Name for shardID=%d, segID=%d,: %v",
-					fileData.mId, fileData.segID, err)
-			}
-		}
-
 	}
 }
 
